@@ -76,7 +76,7 @@ def run_plans(ctx):
             res = eng.encrypt(a, key, pt, cipher_mode=m, padding_method=p, iv_nonce=ivb,
                               auth_additional_data=b"aad" if aad else None, auth_tag_length=tl)
             obs = {"ok": True, "ivGenerated": res.get("iv_nonce") is not None,
-                   "padded": len(res["cipher_text"]) > len(pt), "ct": res["cipher_text"], "iv": res.get("iv_nonce") or ivb,
+                   "padded": len(res["cipher_text"]) > len(pt), "ct": res["cipher_text"], "iv": res.get("iv_nonce") or ivb, "given_iv": ivb,
                    "tag": res.get("auth_tag")}
         except exceptions.InvalidField:
             obs = {"ok": False, "err": "InvalidField"}
@@ -112,6 +112,12 @@ def run_plans(ctx):
                 ctx.report("correspondence:encrypt-plan-fields", "plan model and encrypt disagree on IV generation / padding",
                            {"kind": "plan", "broken": "correspondence encPlan fields", "tuple": tup,
                             "impl": {"ivGenerated": obs["ivGenerated"], "padded": obs["padded"]}, "model": mo}, no_input=True)
+        if tup[3] and obs["ivGenerated"]:
+            # the caller stated the IV: the cipher ran with it; reporting ANOTHER one makes the result undecryptable
+            ctx.report("c06:encrypt-reports-iv-it-was-not-asked-to-generate",
+                       "encrypt%s was given an IV / nonce and returned %s one of its own in the result"
+                       % (tup, "the same value as" if obs["iv"] == obs.get("given_iv") else "a different value as"),
+                       {"kind": "plan", "tuple": tup, "sequence": "the grid up to this tuple, on one CryptographyEngine"})
         if mo["ivGenerated"] and len(obs["iv"]) != mo["iv"]:
             ctx.report("c06:generated-iv-length", "generated IV has %d bytes, block size %d" % (len(obs["iv"]), mo["iv"]),
                        {"kind": "plan", "tuple": tup})
@@ -127,6 +133,79 @@ def run_plans(ctx):
             ctx.report("c06:decrypt-rejects-own-ciphertext", "decrypt failed on encrypt's output for %s: %s" % (tup, e),
                        {"kind": "plan", "tuple": tup})
     return len(cases), stats
+
+
+def run_iv_sequences(ctx):
+    """One CryptographyEngine, pairs of calls: [an Encrypt WITHOUT IV that is refused or fails at any stage - missing /
+    unsupported padding, bad key length, unsupported mode, bad tag length]; [an Encrypt WITH a stated IV / nonce]: the
+    second result carries no IV of its own and is what an independent use of the cipher with the STATED IV gives
+    (checked by decrypting with the stated IV on a fresh engine).  Also [successful Encrypt without IV]; [with IV]."""
+    from kmip.services.server.crypto import engine as ce
+    en = E()
+    r = random.Random(ctx.seed + 606)
+    A, M, P = en.CryptographicAlgorithm, en.BlockCipherMode, en.PaddingMethod
+    firsts = [
+        dict(alg=A.AES, klen=16, mode=M.CBC, pad=None, ptlen=16),          # padding required
+        dict(alg=A.AES, klen=16, mode=M.CBC, pad=P.ISO_10126, ptlen=16),   # padding not supported
+        dict(alg=A.AES, klen=15, mode=M.CBC, pad=P.PKCS5, ptlen=16),       # bad key
+        dict(alg=A.AES, klen=16, mode=M.CTR, pad=None, ptlen=5),           # succeeds, IV generated
+        dict(alg=A.TRIPLE_DES, klen=24, mode=M.CBC, pad=None, ptlen=8),    # padding required, 8-byte IV
+        dict(alg=A.AES, klen=16, mode=M.GCM, pad=None, ptlen=5, tl=3),     # tag length refused
+        dict(alg=A.AES, klen=16, mode=M.GCM, pad=None, ptlen=5, tl=16),    # succeeds, nonce generated
+        dict(alg=A.AES, klen=16, mode=M.NIST_KEY_WRAP, pad=None, ptlen=16),  # mode refused
+    ]
+    seconds = [
+        dict(alg=A.AES, klen=16, mode=M.CBC, pad=P.PKCS5, ivlen=16),
+        dict(alg=A.AES, klen=32, mode=M.CTR, pad=None, ivlen=16),
+        dict(alg=A.AES, klen=16, mode=M.CFB, pad=None, ivlen=16),
+        dict(alg=A.AES, klen=16, mode=M.OFB, pad=None, ivlen=16),
+        dict(alg=A.TRIPLE_DES, klen=24, mode=M.CBC, pad=P.ANSI_X923, ivlen=8),
+        dict(alg=A.AES, klen=16, mode=M.GCM, pad=None, ivlen=12, tl=16),
+        dict(alg=A.AES, klen=16, mode=M.ECB, pad=P.PKCS5, ivlen=None),
+    ]
+    n = 0
+    outcomes = {}
+    for fi, f in enumerate(firsts):
+        for si, s2 in enumerate(seconds):
+            eng = ce.CryptographyEngine()
+            key1 = bytes(r.randrange(256) for _ in range(f["klen"]))
+            try:
+                eng.encrypt(f["alg"], key1, bytes(f["ptlen"]), cipher_mode=f["mode"], padding_method=f["pad"],
+                            iv_nonce=None, auth_tag_length=f.get("tl"))
+                first = "ok"
+            except Exception as e:
+                first = type(e).__name__
+            outcomes[first] = outcomes.get(first, 0) + 1
+            key = bytes(r.randrange(256) for _ in range(s2["klen"]))
+            iv = None if s2["ivlen"] is None else bytes(r.randrange(256) for _ in range(s2["ivlen"]))
+            pt = bytes(r.randrange(256) for _ in range(37))
+            n += 1
+            try:
+                res = eng.encrypt(s2["alg"], key, pt, cipher_mode=s2["mode"], padding_method=s2["pad"], iv_nonce=iv,
+                                  auth_tag_length=s2.get("tl"))
+            except Exception as e:
+                ctx.report("c06:encrypt-refused-after-earlier-call", "Encrypt %d (stated IV) after call %d (%s): %s: %s"
+                           % (si, fi, first, type(e).__name__, e), {"kind": "iv-sequence", "first": fi, "second": si})
+                continue
+            if res.get("iv_nonce") is not None:
+                ctx.report("c06:encrypt-reports-iv-it-was-not-asked-to-generate",
+                           "after an Encrypt without IV that ended %s, an Encrypt with %s returned an IV / nonce of its "
+                           "own (%s the stated one)" % (first, "a stated IV" if iv is not None else "a mode that takes no IV",
+                                                       "equal to" if res["iv_nonce"] == iv else "different from"),
+                           {"kind": "iv-sequence", "first": fi, "second": si})
+                continue
+            try:
+                back = ce.CryptographyEngine().decrypt(s2["alg"], key, res["cipher_text"], cipher_mode=s2["mode"],
+                                                       padding_method=s2["pad"], iv_nonce=iv, auth_tag=res.get("auth_tag"))
+            except Exception as e:
+                back = "%s: %s" % (type(e).__name__, e)
+            if back != pt:
+                ctx.report("c06:decrypt-does-not-invert-encrypt", "Encrypt %d after call %d: decrypt with the stated IV gives %r"
+                           % (si, fi, back if isinstance(back, str) else "other bytes"),
+                           {"kind": "iv-sequence", "first": fi, "second": si})
+    ctx.coverage["iv_sequences"] = n
+    ctx.coverage["iv_sequence_first_call_outcomes"] = outcomes
+    return n
 
 
 def run_padding(ctx, n):
@@ -617,6 +696,7 @@ def run(ctx):
     import logging
     logging.disable(logging.CRITICAL)
     nplan, stats = run_plans(ctx)
+    nseq = run_iv_sequences(ctx)
     npad = run_padding(ctx, 400 if ctx.tier == "quick" else 20000)
     nref = run_references(ctx, 6 if ctx.tier == "quick" else 300)
     nsig = run_gcm_and_sign(ctx, 20 if ctx.tier == "quick" else 500)
@@ -634,7 +714,7 @@ def run(ctx):
                    {"kind": "correspondence", "broken": "correspondence Drivers/Engine.lean vs KmipEngine (C06 histories)",
                     "lines": divs[0]["history"], "impl": divs[0]["impl"], "model": divs[0]["model"]}, no_input=True)
     ctx.coverage.update({
-        "evaluations": nplan + npad + nref + nsig + nsrv + nhist, "server_operation_checks": nsrv,
+        "evaluations": nplan + nseq + npad + nref + nsig + nsrv + nhist, "server_operation_checks": nsrv,
         "engine_history_requests": nhist, "engine_history_divergences": len(divs), "distinct_nontrivial": stats["accepted"] + stats["rejected"],
         "rule": RULE, "samples": [{"plan_tuple": "(alg=3 AES, mode=1 CBC, padding=3 PKCS5, iv absent, no aad)",
                                   "model": "ivGenerated, padding applied, iv length 16"}],
